@@ -44,13 +44,17 @@ RPC_EXEMPT = {'next_from_generator': 'legacy stub: no server binding and no'
 
 
 def run(ctx: Ctx):
-  for r in (r1, r2, r3, r4, r5, r6, r7, r9, r13, r14, r15, r16, r17, r18, r19, r20, r21):
+  for r in (r1, r2, r3, r4, r5, r6, r7, r9, r13, r14, r15, r16, r17, r18, r19, r20, r21, r23):
     ctx.guard(r)
   from mlmverif.props import c15
   ctx.include('R-C14-22', '"signal exhaustion once ... rather than returning a wrong value": the end of a prefetched stream is a'
               ' state every later request reads again; the request handlers never un-install the queue (R-C15-18) — a poll'
               ' after the end marker otherwise gets the RETRIABLE "Generator is not set" timeout and the client restarts a'
               ' finished stream', c15.r18, min_instances=4)
+  from mlmverif.props import c17 as _c17
+  ctx.include('R-C14-24', '"returns the same value ... as evaluating it locally": the server makes every argument through the maker'
+              ' registry, which must recognise a class that reached it pickled by value — the registry is keyed by'
+              ' repr(type) on both sides (R-C17-15)', _c17.r15, min_instances=2)
   from mlmverif.props import c04
   from mlmverif.props._queue import model as qmodel
   from mlmverif.props import c17
@@ -1043,11 +1047,44 @@ def r21(ctx: Ctx):
   ctx.floor(rule, 2, n)
 
 
+def r23(ctx: Ctx):
+  rule = 'R-C14-23'
+  ctx.rule(rule, '"chains of attribute access, indexing and calls on a remote object behave like on the local object": the'
+           ' forwarding methods of RemoteObject hand their arguments to the recorded lazy call AS GIVEN — a method that takes'
+           ' `*args` / `**kwargs` (or a key) never re-binds them before `self.value(...)`. Replacing a RemoteObject argument'
+           ' by its bare lazy handle ("by reference") is only right when it lives on the callee\'s server: for an object of'
+           ' ANOTHER server the callee looks the id up in its own store and the client gets LazyObjectMissingError instead'
+           ' of the value')
+  ci = ctx.repo.cls(CU, 'RemoteObject')
+  n = 0
+  for name in ('__call__', '__getitem__', '__getattr__'):
+    fi = ci.methods.get(name)
+    if fi is None:
+      continue
+    a = fi.node.args
+    ps = [x.arg for x in a.args[1:]] + [x.arg for x in (a.vararg, a.kwarg) if x]
+    n += 1
+    rebinds = [x for x in walk_no_nested(fi.node) if isinstance(x, ast.Assign) and any(isinstance(t, ast.Name) and t.id in ps for t in x.targets)]
+    what = f'RemoteObject.{name}: the arguments reach the recorded call as given'
+    if rebinds:
+      ctx.fail(rule, fi, what,
+               f'`{unparse(rebinds[0])[:70]}` rewrites the arguments of the forwarded call: a remote argument held by another server is'
+               ' dereferenced on the wrong server', node=rebinds[0])
+    else:
+      ctx.ok(rule, fi, what, fi.node)
+  ctx.floor(rule, 2, n)
+
+
 from mlmverif.selfcheck import B, OK  # noqa: E402
 
 _S = 'chainables/courier_server.py'
 _U = 'utils/courier_utils.py'
 VARIANTS = [
+    B('remote-arguments-by-reference', 'utils/courier_utils.py',
+      '    """Calling a LazyFn records a lazy result of the call."""\n', '    """Calling a LazyFn records a lazy result of the call."""\n    args = [a.value if isinstance(a, RemoteObject) else a for a in args]\n', 'R-C14-23'),
+    B('makers-keyed-by-the-type-object', 'chainables/lazy_fns.py',
+      "    self.data[repr(type_)] = maker", "    self.data[type_] = maker", 'R-C14-24',
+      extra=(('chainables/lazy_fns.py', "    return self.data.get(repr(type_), None)", "    return self.data.get(type_, None)"),)),
     B('remote-next-with-none-sentinel', 'utils/courier_utils.py',
       "  def __next__(self) -> _T:\n    return self.iterator.worker.get_result(\n        lazy_fns.trace(next)(self.iterator.value)\n    )",
       "  def __next__(self) -> _T:\n    result = self.iterator.worker.get_result(\n        lazy_fns.trace(next)(self.iterator.value, None)\n    )\n    if result is None:\n      raise StopIteration()\n    return result", 'R-C14-21'),
